@@ -193,11 +193,15 @@ def run(ctx):
         rec = {"id": "%s-%d" % (tag, len(recs)), "prefix": prefix,
                "gens": [{"name": g["name"], "prog": g["prog"], "acl": aclgen.judge_view(g["acl"]), "declines": g["declines"] is not None} for g in gens_spec],
                "acl_texts": ["\n".join(aclgen.acl_text(g["acl"])) for g in gens_spec]}
+        # `annet gen --annotate`: every generated line carries "<TAB># <module>:<line>" behind it; the run is otherwise the same
+        annotate = len(recs) % 5 == 0
         try:
-            res = genrun.old_new(dev, gens)
+            res = genrun.old_new(dev, gens, annotate=annotate)
             if res.err is not None:
                 raise res.err
-            rec["outcome"], rec["new"] = "ok", _jtree(res.new)
+            rec["outcome"], rec["new"] = "ok", _jtree(res.new, annotate)
+            if annotate and res.new and not any("\t# " in row for row in res.new):
+                rec["outcome"], rec["exc"] = "other", "annotations asked for, none found on the top-level lines"
         except AclNotExclusiveError:
             rec["outcome"], rec["new"] = "not-exclusive", []
         except GeneratorError as e:
@@ -270,5 +274,31 @@ def run(ctx):
     ctx.cov["outcomes"] = out
 
 
-def _jtree(t):
-    return [{"row": k.split(), "kids": _jtree(v)} for k, v in t.items()]
+def _jtree(t, annotated=False):
+    """rows as word lists; with annotations the text behind the last TAB-hash separator is cut off (trusted lexer) and lines that differ
+    in their annotation only (the same line yielded at two places of the sources) are one line again"""
+    if not annotated:
+        return [{"row": k.split(), "kids": _jtree(v)} for k, v in t.items()]
+    out = []
+    for k, v in t.items():
+        row = k.rsplit("\t# ", 1)[0].split()
+        kids = _jtree(v, True)
+        for n in out:
+            if n["row"] == row:
+                n["kids"] = _merge(n["kids"], kids)
+                break
+        else:
+            out.append({"row": row, "kids": kids})
+    return out
+
+
+def _merge(a, b):
+    out = [dict(n) for n in a]
+    for m in b:
+        for n in out:
+            if n["row"] == m["row"]:
+                n["kids"] = _merge(n["kids"], m["kids"])
+                break
+        else:
+            out.append(m)
+    return out
